@@ -61,9 +61,12 @@ def strategy(draw):
     nrec = draw(st.one_of(st.integers(0, 8), st.integers(0, 60)))
     records = []
     pos = [10] * ncont
+    # a third of the files are dense (records at most 40 bases apart), so that ranges hold three and more hets and the
+    # per-range decisions (mirroring side by the median) have something to decide
+    spacing = draw(st.sampled_from([400, 400, 40]))
     for _ in range(nrec):
         c = draw(st.integers(0, ncont - 1))
-        pos[c] += draw(st.integers(1, 400))
+        pos[c] += draw(st.integers(1, spacing))
         kind = draw(st.sampled_from(["snv", "snv", "snv", "ins", "del"]))
         if kind == "snv":
             ref, alt = draw(st.sampled_from([("A", "G"), ("C", "T"), ("G", "C")]))
